@@ -395,6 +395,55 @@ fn grid_prev_flags(cell: usize, e: &mut Emit) {
     e.line("done");
 }
 
+/// Signals of the forbidden list can be hooked through the unchecked entry points; the takeover is
+/// as permanent for them as for any other signal. (Software-sent; previous disposition: ignore.)
+fn grid_unchecked(e: &mut Emit) {
+    for &s in &[libc::SIGFPE, libc::SIGILL, libc::SIGSEGV] {
+        reg::verif::reset_registry(false);
+        take_runlog();
+        unsafe {
+            let mut sa: libc::sigaction = std::mem::zeroed();
+            sa.sa_sigaction = libc::SIG_IGN;
+            libc::sigaction(s, &sa, std::ptr::null_mut());
+        }
+        let disp = || -> bool {
+            let (h, flags) = unsafe {
+                let mut sa: libc::sigaction = std::mem::zeroed();
+                libc::sigaction(s, std::ptr::null(), &mut sa);
+                (sa.sa_sigaction, sa.sa_flags)
+            };
+            h == reg::verif::handler_address() && flags & libc::SA_RESTART != 0 && flags & libc::SA_SIGINFO != 0
+        };
+        let id1 = unsafe { reg::register_unchecked(s, move |_| note(1)) }.unwrap();
+        let id2 = unsafe { reg::register_signal_unchecked(s, move || note(2)) }.unwrap();
+        unsafe {
+            libc::raise(s);
+        }
+        let a = take_runlog();
+        let u1 = reg::unregister(id1);
+        let d1 = disp();
+        unsafe {
+            libc::raise(s);
+        }
+        let b = take_runlog();
+        let u2 = reg::unregister(id2);
+        let d2 = disp();
+        e.line(&format!("progress {} last action removed", s));
+        unsafe {
+            libc::raise(s);
+        }
+        let c = take_runlog();
+        let id3 = unsafe { reg::register_unchecked(s, move |_| note(3)) }.unwrap();
+        unsafe {
+            libc::raise(s);
+        }
+        let d = take_runlog();
+        reg::unregister(id3);
+        e.line(&format!("unchecked {} ran={:?} unreg={} ours={} then={:?} unreg={} ours={} empty={:?} again={:?} ours={}", s, a, u1, d1 as u8, b, u2, d2 as u8, c, d, disp() as u8));
+    }
+    e.line("done");
+}
+
 fn grid_restart(e: &mut Emit) {
     reset_all();
     let s = libc::SIGUSR1;
@@ -436,7 +485,7 @@ pub fn run(tier: Tier) -> BResult {
     let n = prefixes.len();
     let pre2 = prefixes.clone();
     let nprev = PREV_FLAGS.len() * PREV_SIGS.len() * 2;
-    let probes = run_cells(n + 3 + nprev, 16, Duration::from_secs(if tier == Tier::Quick { 50 } else { 900 }), move |i, e| {
+    let probes = run_cells(n + 4 + nprev, 16, Duration::from_secs(if tier == Tier::Quick { 50 } else { 900 }), move |i, e| {
         if i < n {
             bfs_chunk(&pre2[i], depth, e)
         } else if i == n {
@@ -445,8 +494,10 @@ pub fn run(tier: Tier) -> BResult {
             grid_cycle(e)
         } else if i == n + 2 {
             grid_restart(e)
-        } else {
+        } else if i < n + 3 + nprev {
             grid_prev_flags(i - n - 3, e)
+        } else {
+            grid_unchecked(e)
         }
     });
     let mut violations = Vec::new();
@@ -543,6 +594,16 @@ pub fn run(tier: Tier) -> BResult {
             violations.push(BViolation { message: format!("C05: signal {} taken over from a {} handler installed with {}: {}", PREV_SIGS[si], if info { "three-argument" } else { "one-argument" }, PREV_FLAGS[fi].1, m), case });
         }
     }
+    let gu = &probes[n + 3 + nprev];
+    for s in [libc::SIGFPE, libc::SIGILL, libc::SIGSEGV] {
+        grid_cells += 1;
+        let want = format!("{} ran=[1, 2] unreg=true ours=1 then=[2] unreg=true ours=1 empty=[] again=[3] ours=1", s);
+        match gu.lines.iter().find(|l| l.starts_with(&format!("unchecked {} ", s))) {
+            Some(l) if l.strip_prefix("unchecked ") == Some(want.as_str()) => {}
+            Some(l) => violations.push(BViolation { message: format!("C05: signal {} hooked through the unchecked entry points: observed `{}` (expected `{}`: the library's handler stays the disposition, also with no action left)", s, l, want), case: json!({"grid": "unchecked entry points", "signal": s}) }),
+            None => violations.push(BViolation { message: format!("C05: signal {} hooked through the unchecked entry points: the process {} (last: {:?}) - the disposition did not stay the library's handler when the last action was removed", s, gu.fate.describe(), gu.lines.last()), case: json!({"grid": "unchecked entry points", "signal": s}) }),
+        }
+    }
     samples.push(json!({"grid_all_signals": g.lines.iter().take(3).collect::<Vec<_>>(), "cycle": c.find("cycle "), "restart": r.find("restart ")}));
     // schedules (engine A): concurrent mutators must not disturb each other's actions / signals
     let mut a_caps: Vec<serde_json::Value> = Vec::new();
@@ -583,7 +644,7 @@ pub fn run(tier: Tier) -> BResult {
         violations,
         exhaustive: caps.is_empty(),
         caps,
-        rule: format!("schedules: two mutators (on two signals / on one) + deliveries, every choice vector within the deviation bound on the real registry, final probe deliveries compared with the registered set, ids distinct; histories: explicit-state BFS to depth {} over {{register, register_sigaction on 3 signals, unregister(every id ever returned: live and stale), unregister_signal, deliver}}; states = reference-model states (per issued id: signal, live, kind) deduplicated per chunk (one chunk per 2-operation prefix); every transition is executed as a complete history on the real registry from a reset and compared step by step with the model, followed by probe deliveries of all signals and a disposition check; plus grids: all signal numbers 1..64, a 10000-step register/unregister cycle, one system-call-restart probe, and takeover from a foreign handler installed with each of 6 flag sets (SA_RESETHAND, SA_NODEFER, SA_ONSTACK, SA_NOCLDSTOP|SA_NOCLDWAIT, the first three together, SA_RESTART) x 3 signals x both conventions followed by 5 deliveries (3 with an action, 2 with none left)", depth),
+        rule: format!("schedules: two mutators (on two signals / on one) + deliveries, every choice vector within the deviation bound on the real registry, final probe deliveries compared with the registered set, ids distinct; histories: explicit-state BFS to depth {} over {{register, register_sigaction on 3 signals, unregister(every id ever returned: live and stale), unregister_signal, deliver}}; states = reference-model states (per issued id: signal, live, kind) deduplicated per chunk (one chunk per 2-operation prefix); every transition is executed as a complete history on the real registry from a reset and compared step by step with the model, followed by probe deliveries of all signals and a disposition check; plus grids: all signal numbers 1..64, a 10000-step register/unregister cycle, one system-call-restart probe, and takeover from a foreign handler installed with each of 6 flag sets (SA_RESETHAND, SA_NODEFER, SA_ONSTACK, SA_NOCLDSTOP|SA_NOCLDWAIT, the first three together, SA_RESTART) x 3 signals x both conventions followed by 5 deliveries (3 with an action, 2 with none left), and SIGFPE / SIGILL / SIGSEGV hooked through the unchecked entry points (register, deliver, remove all, deliver, register again)", depth),
         assumptions: vec!["SigId cannot be forged: foreign ids are ids of other signals and stale ids".into(), "registry reset between histories through the cfg(sighook_verif) hook".into()],
     }
 }
